@@ -565,6 +565,12 @@ func init() {
 				return true
 			})
 		}
+		ast.Inspect(exs.Body, func(n ast.Node) bool {
+			if is, ok := n.(*ast.IfStmt); ok && strings.HasPrefix(src(fsetL, is.Cond), "errRx != nil &&") {
+				pipelineReportGuards = append(pipelineReportGuards, src(fsetL, is.Cond))
+			}
+			return true
+		})
 		storeOptsUnary, storeOptsStreamed := storeOpts(exe), storeOpts(exs)
 		if len(storeOptsUnary) == 0 || len(storeOptsStreamed) == 0 {
 			return Result{}, fmt.Errorf("pipeline.NewValidatingStore not found in Execute / ExecuteStreamed")
